@@ -11,9 +11,10 @@ Require Import Base.Wire Base.PyStr C12.Model C12.Wrap C12.More C12.Fits C12.Pla
 (* ---- byteTextWrap, for every word list (the output of TextWrapper._split_chunks is an
         explicit input) and every size >= 4 ---- *)
 
-(* it terminates (no lone surrogates: str.encode would raise) *)
+(* it terminates for EVERY width, even 0 or negative (repair of F49: a line takes at least one character;
+   each step consumes a word or shortens it) -- no lone surrogates: str.encode would raise *)
 Theorem C12_wrap_total : forall words (n : Z),
-  (4 <= n)%Z -> existsb has_surrogate words = false -> exists ls, byteTextWrap words n = Ok ls.
+  existsb has_surrogate words = false -> exists ls, byteTextWrap words n = Ok ls.
 Proof. exact wrap_total. Qed.
 Print Assumptions C12_wrap_total.
 
@@ -35,13 +36,6 @@ Theorem C12_wrap_munge : forall s n ls,
   byteTextWrap (split_chunks s) n = Ok ls -> concat ls = munge s.
 Proof. exact wrap_munge. Qed.
 Print Assumptions C12_wrap_munge.
-
-(* the bound 4 is needed: below it the Python loop can spin for ever *)
-Theorem C12_wrap_small_refuted :
-  exists words n, (0 < n < 4)%Z /\ existsb has_surrogate words = false /\
-                  byteTextWrap words n = Raise OtherError.
-Proof. exact wrap_small_hangs. Qed.
-Print Assumptions C12_wrap_small_refuted.
 
 (* ---- the reply / more sequence ---- *)
 
@@ -134,7 +128,7 @@ Print Assumptions C12_wrap_plain.
        no cut falls inside a colour sequence or in front of text a re-opened colour prefix would
        swallow -- for text whose only blanks are spaces; refuted outside it (F14). *)
 Theorem C12_chunk_fits_on_domain : forall s (n : Z) cF mx ls,
-  s <> [] -> munged s = true -> parse s = Ok (cF, mx) -> (Z.of_N mx <= n)%Z ->
+  s <> [] -> munged s = true -> parse s = Ok (cF, mx) -> (Z.of_N mx + 4 <= n)%Z ->
   safe_cuts s n = true -> wrap s n = Ok ls ->
   Forall (fun c => (Z.of_nat (length (utf8 c)) <= n)%Z) ls.
 Proof. exact fmt_chunk_fits. Qed.
@@ -146,8 +140,9 @@ Theorem C12_chunk_fits_refuted :
 Proof. exact chunk_fits_refuted_outside. Qed.
 Print Assumptions C12_chunk_fits_refuted.
 
-Theorem C12_visible_text_on_domain : forall s (n : Z) ls,
-  s <> [] -> munged s = true -> safe_cuts s n = true -> wrap s n = Ok ls ->
+Theorem C12_visible_text_on_domain : forall s (n : Z) cF mx ls,
+  s <> [] -> munged s = true -> parse s = Ok (cF, mx) -> (Z.of_N mx + 4 <= n)%Z ->
+  safe_cuts s n = true -> wrap s n = Ok ls ->
   concat (map visible ls) = visible s.
 Proof. exact fmt_visible_text. Qed.
 Print Assumptions C12_visible_text_on_domain.
@@ -242,8 +237,7 @@ Theorem C12_parse_total : forall s, exists r, parse s = Ok r.
 Proof. exact parse_total. Qed.
 Print Assumptions C12_parse_total.
 
-(* wrap can only fail by str.encode on a lone surrogate or by the byteTextWrap loop not
-   terminating (size below one character, see C12_wrap_total for size >= 4) *)
-Theorem C12_wrap_raises_only : forall s n e, wrap s n = Raise e -> e = UnicodeError \/ e = OtherError.
+(* wrap can only fail by str.encode on a lone surrogate: it returns for every width *)
+Theorem C12_wrap_raises_only : forall s n e, wrap s n = Raise e -> e = UnicodeError.
 Proof. exact wrap_raises_only. Qed.
 Print Assumptions C12_wrap_raises_only.
